@@ -25,10 +25,11 @@ def main():
                                   invalid_prob=args.get("invalid_prob", 0.15),
                                   undo_prob=args.get("undo_prob", 0.5))
     tr = rec.trace()
-    tt.ints.update(rec.tt.ints)
+    tt.update(rec.tt)
     traces.append(tr)
   shard = {"meta": {"jobs": jobs, "gen_wall": time.time() - t0},
-           "ints": tt.ints, "traces": traces}
+           "ints": tt.ints, "elems": tt.elems, "strs": tt.strs, "helpers": tt.helpers,
+           "traces": traces}
   with open(args["out"], "w") as f:
     json.dump(shard, f)
 
